@@ -195,16 +195,23 @@ def run(ctx):
         X0 = [float(sum(Fraction(p.m) * Fraction(getattr(p, c)) for p in sim.particles)) for c in "xyz"]
         Pscale = max(p.m * (abs(p.vx) + abs(p.vy) + abs(p.vz)) for p in sim.particles)
         N0 = sim.N; t0 = sim.t; nst = 400
+        exc = None
         with warnings.catch_warnings():
             warnings.simplefilter("ignore")
-            for s_ in range(nst):
-                if s_ % 3 == 0: sim.step()
-                elif s_ % 3 == 1: sim.integrate(sim.t + 2.5 * sim.dt, exact_finish_time=0)
-                else: sim.synchronize()
-            sim.synchronize()
+            try:
+                for s_ in range(nst):
+                    if sim.N < 2: break      # everything merged: a single free body (adaptive schemes then grow dt without bound)
+                    if s_ % 3 == 0: sim.step()
+                    elif s_ % 3 == 1: sim.integrate(sim.t + 2.5 * sim.dt, exact_finish_time=0)
+                    else: sim.synchronize()
+                sim.synchronize()
+            except Exception as ex:
+                exc = "%s at step %d, t=%r, N=%d" % (repr(ex)[:160], s_, sim.t, sim.N)
         ctx.case(key=("merge-grav", integ, N0, sim.N))
         why = None
-        if any(not (p.x == p.x and p.vx == p.vx) for p in sim.particles):
+        if exc:
+            why = "exception while integrating through mergers: " + exc
+        elif any(not (p.x == p.x and p.vx == p.vx) for p in sim.particles):
             why = "NaN particle after merging"
         else:
             M1 = sum(Fraction(p.m) for p in sim.particles); P1, _ = exact_PL(sim)
@@ -215,7 +222,10 @@ def run(ctx):
             dX = max(abs(x1 - (x0 + p_ * t)) for x0, x1, p_ in zip(X0, X1, P0))
             if abs(float(M1 - M0)) > 1e-13 * float(M0): why = "merging changed the total mass (%s)" % integ
             elif dP > tolP: why = "merging changed the total momentum: relative %.3g (tolerance %.3g)" % (dP, tolP)
-            elif dX > 1e-10 * jf ** 0.5: why = "merging moved the centre of mass off its uniform motion by %.3g" % dX
+            elif dX > 1e-10 * jf ** 0.5 * max(1.0, max(abs(v) for v in X0)) + tolP * Pscale * abs(t):
+                # (plus the admitted rounding-level momentum error times the elapsed time: adaptive integrators take huge steps once
+                #  everything has merged into one body)
+                why = "merging moved the centre of mass off its uniform motion by %.3g" % dX
         if why: fails.append({"why": why, "integrator": integ, "N0": N0, "N1": sim.N, "seed_case": rep, "dt": sim.dt, "G": sim.G})
     if fails:
         f = fails[0]
